@@ -231,14 +231,18 @@ class UnitRegistry:
         if entry is None or not entry[4]:
             return
         for prefix, (value, _) in unit_prefixes.items():
-            derived = self.lut.get(prefix + symbol)
+            name = prefix + symbol
+            derived = self.lut.get(name)
             if (
                 derived is not None
                 and not derived[4]
                 and derived[0] == entry[0] * value
                 and derived[1] == entry[1]
+                # the table's own symbol spelled prefix + symbol ('ha' next to
+                # a user's prefixable 'a' = 100 m**2) is not a memoised entry
+                and derived != default_unit_symbol_lut.get(name)
             ):
-                del self.lut[prefix + symbol]
+                del self.lut[name]
 
     def keys(self):
         """
